@@ -34,6 +34,13 @@ DScan(vec, d, sized) ==
     /\ valid' = vec /\ disk' = d /\ afterScan' = vec /\ phase' = "scanned"
     /\ UNCHANGED <<n, requested, usableSeen, base>>
 
+\* C12: a scan during which an I/O call failed: it may report an error, but must not trust absent bytes
+DScanFaulty(vec, d, sized) ==
+    /\ phase = "header" /\ Len(vec) = n
+    /\ \A c \in Idx : vec[c] = 1 => (d[c] \/ ~sized[c])
+    /\ valid' = vec /\ disk' = d /\ afterScan' = vec /\ phase' = "scanned"
+    /\ UNCHANGED <<n, requested, usableSeen, base>>
+
 \* C08: copying from a local source.  matchable[c] = the source index has a chunk with the same checksum,
 \* stored size and size; usable[c] = matchable and the source's bytes for it really hash to that checksum
 DCopy(vec, d, z, matchable, usable, srcSame, outside) ==
@@ -49,6 +56,14 @@ DCopy(vec, d, z, matchable, usable, srcSame, outside) ==
     /\ valid' = vec /\ disk' = d
     /\ usableSeen' = usableSeen \cup { c \in Idx : valid[c] # 1 /\ usable[c] }
     /\ UNCHANGED <<n, afterScan, requested, phase, base>>
+
+\* C12: a copy during which an I/O call failed or was short: whatever happened, a chunk is marked valid only
+\* if its bytes were completely written, and the source is untouched
+DCopyFaulty(vec, d, srcSame) ==
+    /\ phase = "scanned" /\ Len(vec) = n
+    /\ \A c \in Idx : vec[c] = 1 => d[c]
+    /\ srcSame
+    /\ valid' = vec /\ disk' = d /\ UNCHANGED <<n, afterScan, requested, usableSeen, phase, base>>
 
 \* C08: matching by checksum only (no bytes are copied): a target chunk is paired only with a source chunk whose
 \* (stored or uncompressed) checksum and length are equal.  pairOk[c] = such a source chunk exists
